@@ -221,6 +221,10 @@ Definition GMT : str := [32; 71; 77; 84].
 Fixpoint ends_with_s (suf s : str) : bool :=
   str_eqb s suf || match s with [] => false | _ :: r => ends_with_s suf r end.
 
+(* _rx_asctime.fullmatch(value): RFC 7231 asctime-date = day-name SP month SP (2DIGIT / SP DIGIT) SP
+   2DIGIT:2DIGIT:2DIGIT SP 4DIGIT with the real, case-sensitive day and month names (regenerated) *)
+Definition is_asctime (v : str) : bool := rmatch asctime_rx v.
+
 Inductive if_range :=
 | IRTag (m : matcher)               (* IfRange(etag) *)
 | IRDate (d : option Z).            (* IfRangeDate(parse_date(value)) *)
@@ -230,12 +234,20 @@ Section Dates.
      Result in seconds since the epoch, None when unparseable. *)
   Variable parse_date : str -> option Z.
 
-  (* IfRange.parse(value); Request.if_range passes environ.get(key, None) *)
+  (* IfRange.parse(value); Request.if_range passes environ.get(key, None).
+     A value that ends in SP GMT is a date whatever parse_date says; a value of exactly the
+     asctime-date shape (the REGENERATED pattern asctime_rx, full match) is a date when parse_date
+     understands it with SP GMT appended (asctime has no zone); everything else goes to
+     ETagMatcher.parse *)
   Definition if_range_parse (value : option str) : if_range :=
     match value with
     | None | Some [] => IRTag MAny
     | Some v => if ends_with_s GMT v then IRDate (parse_date v)
-                else IRTag (matcher_parse true v)
+                else if negb (is_asctime v) then IRTag (matcher_parse true v)
+                else match parse_date (v ++ GMT) with
+                     | Some d => IRDate (Some d)
+                     | None => IRTag (matcher_parse true v)
+                     end
     end.
 
   (* `resp in if_range` for a response with the given raw ETag and Last-Modified headers.
